@@ -125,9 +125,9 @@ Qed.
 Lemma make_and_header_ok n : 4 <= n -> make_and_header n = Ok n.
 Proof.
   intros H. unfold make_and_header.
-  destruct (Nat.ltb_spec 0 (N.to_nat n)); [|lia]. destruct (Nat.ltb_spec 1 (N.to_nat n)); [|lia].
-  destruct (Nat.ltb_spec 2 (N.to_nat n)); [|lia]. destruct (Nat.ltb_spec 3 (N.to_nat n)); [|lia]. cbn [bind].
-  destruct (Nat.ltb_spec (N.to_nat n) 4); [lia|]. reflexivity.
+  destruct (N.ltb_spec 0 n); [|lia]. destruct (N.ltb_spec 1 n); [|lia].
+  destruct (N.ltb_spec 2 n); [|lia]. destruct (N.ltb_spec 3 n); [|lia]. cbn [bind].
+  destruct (N.ltb_spec n 4); [lia|]. reflexivity.
 Qed.
 
 Theorem decompress_alloc_spec capped adv alg ulen open_ok : ulen < 16777216 ->
@@ -190,9 +190,8 @@ Qed.
 Theorem hrr_cookie_inserted exts clen r : existsb (ext_kind_eqb XKeyShare) exts = true -> (0 < clen)%nat ->
   exists l, hrr_utls_section false 0 exts clen r = Ok l /\ In XCookie l.
 Proof.
-  intros Hk Hc. unfold hrr_utls_section. cbn [Nat.ltb Nat.leb]. rewrite Hk. cbn [negb].
-  destruct (Nat.ltb_spec 0 clen); [|lia].
-  destruct (insert_cookie_no_panic exts r) as [(l & -> & _ & Hin)|[_ He]]; [eauto|]. subst exts. cbn in Hk. discriminate Hk.
+  intros Hk Hc. unfold hrr_utls_section. destruct clen as [|clen]; [lia|]. cbn [Nat.ltb Nat.leb]. rewrite Hk. cbn [negb].
+  destruct (insert_cookie_no_panic exts r) as [(l & -> & _ & Hin)|[_ He]]; [exists l; split; [reflexivity|exact Hin]|]. subst exts. cbn in Hk. discriminate Hk.
 Qed.
 
 (* ---------- one step, and the whole run ---------- *)
